@@ -73,6 +73,8 @@ impl PartialEq for Value {
                         true
                     }
                 }
+                // an argument list is a list: keep `==` symmetric
+                Value::ArgList(..) => other == self,
                 _ => false,
             },
             Value::Null => matches!(other, Value::Null),
@@ -433,6 +435,7 @@ impl Value {
                         false
                     }
                 }
+                Value::ArgList(..) => other.not_equals(self),
                 _ => true,
             },
             s => s != other,
